@@ -220,10 +220,16 @@ def numSeq (start end_ inc : Int) : List Int :=
   if start ≤ end_ then ascFrom start end_ (stepOf inc)
   else start :: descFrom start end_ (stepOf inc)
 
-/-- number of words an ascending sequence produces: it is the *literal's* value that bounds the
-allocation, not the length of the script -/
-def numSeqCount (start end_ : Int) (inc : Nat) : Nat :=
-  if start ≤ end_ then ((end_ - start) / (inc : Int)).toNat + 1 else 0
+/-- number of words of a numeric sequence as rule `brace_sequence_expr()` computes it (in `i128`):
+`|end - start| / max(|increment|, 1) + 1` -/
+def seqCount (start end_ inc : Int) : Nat :=
+  (end_ - start).natAbs / stepOf inc + 1
+
+/-- `INT_MAX - 2`: a numeric sequence with more elements is not a sequence expression (the rule
+fails and the braces stay literal text), as in bash -/
+def SEQ_LIMIT : Nat := 2147483645
+
+def seqAccepted (start end_ inc : Int) : Bool := seqCount start end_ inc ≤ SEQ_LIMIT
 
 /-- ascending char range over code points (letters only reach here: no surrogate gap below 0xD800) -/
 def ascChars (c end_ inc : Nat) : List Nat :=
